@@ -332,6 +332,10 @@ func c12Bases(c *sup.Ctx) []refdl.Scenario {
 	blocks := [][]refdl.Block{
 		{},
 		{{Facts: []refdl.Atom{atom("p", i0), atom("q", rx.Int(2))}, Rules: []refdl.Rule{rule(atom("z"), atom("p", vx)), rule(atom("q", vx), atom("p", vx))}, Checks: []refdl.Check{chk(q(atom("z"))), chk(q(atom("q", i0)), q(atom("p", i1)))}}},
+		// blocks that bring rules but no fact of their own (the block's world has exactly the facts of the
+		// authority level, and as many rules as some authority/authorizer combinations)
+		{{Rules: []refdl.Rule{rule(atom("z"), atom("p", vx))}, Checks: []refdl.Check{chk(q(atom("z")))}}},
+		{{Rules: []refdl.Rule{rule(atom("z"), atom("p", vx)), rule(atom("q", vx), atom("p", vx))}, Checks: []refdl.Check{chk(q(atom("z"))), chk(q(atom("q", i0)), q(atom("p", i1)))}}},
 	}
 	if c.Quick() {
 		azFacts = [][]refdl.Atom{azFacts[0], azFacts[3], azFacts[5], azFacts[7]}
